@@ -357,7 +357,7 @@ func verifHarnessC05Tamper() {
 	assume(k.save() == nil)
 	var a verifV1Wrapped
 	assume(jsonBlobAs(verifFS.files[k.path].content, &a))
-	mode := nondetChoice("tamper", 6)
+	mode := nondetChoice("tamper", 8)
 	useKEK := kek
 	w := a
 	switch mode {
@@ -375,9 +375,17 @@ func verifHarnessC05Tamper() {
 		w.DEK = nondetSeq("garbage")
 	}
 	file, _ := json.Marshal(w)
+	switch mode {
+	case 6: // truncated to nothing: the file exists but is empty
+		file = []byte{}
+	case 7: // the whole file replaced by arbitrary bytes
+		file = nondetSeq("garbage.file")
+	}
 	verifFS.files[k.path].content = file
+	writes0 := ghostCount("disk.write")
 	k2, err := openOrCreateKV(k.path, useKEK)
 	assert("tampered-open-fails", and(err != nil, k2 == nil))
+	assert("tampered-file-is-not-replaced", and(ghostCount("disk.write") == writes0, sameBacking(verifFS.files[k.path].content, file) || len(file) == 0))
 	reach("end")
 }
 
